@@ -96,6 +96,8 @@ def plan(tier, seed):
             K3="32^3 x gaps{1,2,100}^2 x interleavings{none,between,inside} + flags on the last tick",
             K4="12^4 over a 12-combination sub-alphabet (every lane count), gaps{1,2}, orders asc/desc",
         )
+    shards += [("long", g, inter) for g in (1, 2, 100) for inter in ("none", "between", "inside")]
+    bounds["long"] = "sections of 128, 256 and 640 ticks walking through all 32 combinations x 4 flag sets"
     return dict(shards=shards, bounds=bounds, budget_s=900 if tier == "thorough" else 240)
 
 
@@ -122,6 +124,19 @@ def check(ctx, ticks, combos, flags, order, inter):
 
 def run_shard(shard, ctx):
     kind = shard[0]
+    if kind == "long":
+        _, gap, inter = shard
+        for reps, order in ((1, "asc"), (2, "desc"), (5, "rot")):
+            combos, flags = [], []
+            for rep in range(reps):
+                for fi, f in enumerate(FLAGS):
+                    for m in range(32):
+                        combos.append(COMBOS[(m + rep) % 32])
+                        flags.append(f if (combos and len(combos) > 1) else ())
+            flags[0] = ()
+            ticks = [gap * i for i in range(len(combos))]
+            check(ctx, ticks, combos, flags, order, inter)
+        return
     if kind == "K2":
         a = COMBOS[shard[1]]
         ctx.node()
